@@ -78,10 +78,12 @@ func runSolver(ctx context.Context, sr solverRun, file string, timeout time.Dura
 	_ = cmd.Run()
 	el := time.Since(t0).Seconds()
 	txt := out.String()
-	first := strings.TrimSpace(strings.SplitN(txt, "\n", 2)[0])
-	switch first {
-	case "unsat", "sat", "unknown":
-		return first, txt, el
+	// the verdict is the first line that is a verdict (solvers may print warnings before it)
+	for _, ln := range strings.Split(txt, "\n") {
+		switch strings.TrimSpace(ln) {
+		case "unsat", "sat", "unknown":
+			return strings.TrimSpace(ln), txt, el
+		}
 	}
 	if strings.Contains(txt, "timeout") || cctx.Err() != nil {
 		return "timeout", txt, el
